@@ -444,6 +444,11 @@ def do_replay(prop, path, repo, workdir):
     if not o:
         infra("replay produced no output")
     print("\n".join(o.get("trace") or []))
+    if os.environ.get("VERIF_LOGS"):
+        print("\n".join(l for l in (rr["stderr"] or "").splitlines() if l.startswith("DBG"))[:20000])
+        for role, lines in sorted((o.get("role_logs") or {}).items()):
+            for l in lines:
+                print("[%s] %s" % (role, l))
     if o.get("violations"):
         v = o["violations"][0]
         print("log_hash=%s recorded=%s" % (o.get("log_hash"), rf.get("log_hash")))
@@ -454,7 +459,8 @@ def do_replay(prop, path, repo, workdir):
 
 
 def write_evidence(prop, tier, seed, meta, agg, wall, reported, known_hit, wall_cap_hit, pd):
-    os.makedirs(os.path.join(VERIF, "evidence"), exist_ok=True)
+    evdir = os.environ.get("VERIF_EVIDENCE_DIR") or os.path.join(VERIF, "evidence")  # seeded-change runs write elsewhere
+    os.makedirs(evdir, exist_ok=True)
     hours = max(wall, 1e-9) / 3600.0
     cov = {
         "evaluations": agg["runs"],
@@ -488,7 +494,7 @@ def write_evidence(prop, tier, seed, meta, agg, wall, reported, known_hit, wall_
         "coverage": cov, "assumptions": meta["assumptions"], "wall_s": round(wall, 2),
         "violations": len(reported),
     }
-    json.dump(ev, open(os.path.join(VERIF, "evidence", prop + ".json"), "w"), indent=1, sort_keys=True)
+    json.dump(ev, open(os.path.join(evdir, prop + ".json"), "w"), indent=1, sort_keys=True)
 
 
 if __name__ == "__main__":
